@@ -238,6 +238,59 @@ def run(ctx):
             else:
                 ctx.violate("R5", f"array field {ci.name}.{name} has no validate_shape validator", relpath=ci.module.relpath, function=ci.qualname, construct=f"field {name}")
     ctx.floor("R5", nf, 20, "array-valued fields")
+    check_validate_shape(ctx, "R5")
+    check_line_counter(ctx)
+
+
+def check_line_counter(ctx):
+    """R6: the line counter is incremented on every successful read and decremented on every push-back."""
+    from ..cfg import EXIT, cfg_of
+
+    prog = ctx.prog
+    ctx.rule("R6", "LineIterator counts every line read and every line pushed back exactly once", "error messages report a line number that drifts away from the last line read")
+    lit_cls = prog.cls("iodata.utils.LineIterator")
+    for mname, op, want in (("__next__", ast.Add, "read"), ("back", ast.Sub, "push-back")):
+        m = lit_cls.methods.get(mname)
+        if m is None:
+            ctx.violate("R6", f"LineIterator.{mname} not found", relpath=lit_cls.module.relpath, function=lit_cls.qualname, construct=mname)
+            continue
+        cfg = cfg_of(m)
+        incs = [n for n in m.own_nodes() if isinstance(n, ast.AugAssign) and src_of(n.target) == "self.lineno" and isinstance(n.op, op) and isinstance(n.value, ast.Constant) and n.value.value == 1]
+        others = [n for n in m.own_nodes() if isinstance(n, (ast.AugAssign, ast.Assign)) and any(src_of(t) == "self.lineno" for t in (n.targets if isinstance(n, ast.Assign) else [n.target])) and n not in incs]
+        rets = [cfg.idx(n) for n in m.own_nodes() if isinstance(n, ast.Return)]
+        exits = rets + [a for a, lab in cfg.pred[EXIT] if lab != "return"]
+        if len(incs) == 1 and not others and exits and cfg.must_pass(exits, {cfg.idx(incs[0])}):
+            ctx.ok("R6", f"LineIterator.{mname}: every normal exit passes through exactly one `self.lineno {'+' if op is ast.Add else '-'}= 1` ({want})", f"{m.module.relpath}:{incs[0].lineno}")
+        else:
+            ctx.violate("R6", f"LineIterator.{mname}: a {want} can complete without changing lineno by exactly one (found {len(incs)} update(s), {len(others)} other write(s), or a path that bypasses it)", m, m.node, construct=f"{mname} lineno bookkeeping")
+    bk = lit_cls.methods.get("back")
+    if bk is not None:
+        okp = any(isinstance(n, ast.Call) and src_of(n.func) == "self.stack.append" and n.args and src_of(n.args[0]) == bk.posparams[1] for n in bk.own_nodes())
+        nx = lit_cls.methods.get("__next__")
+        okn = nx is not None and any(isinstance(n, ast.Call) and src_of(n.func) == "self.stack.pop" for n in nx.own_nodes())
+        if okp and okn:
+            ctx.ok("R6", "pushed-back lines are stacked and popped before the file is read again", f"{bk.module.relpath}:{bk.lineno}")
+        else:
+            ctx.violate("R6", "push-back does not stack the line / __next__ does not pop the stack first", bk, bk.node, construct="push-back stack")
+    init = lit_cls.methods.get("__init__")
+    if init is not None and any(isinstance(n, ast.Assign) and src_of(n.targets[0]) == "self.lineno" and isinstance(n.value, ast.Constant) and n.value.value == 0 for n in init.own_nodes()):
+        ctx.ok("R6", "the counter starts at 0", f"{init.module.relpath}:{init.lineno}")
+    else:
+        ctx.violate("R6", "LineIterator.lineno does not start at 0", init, init.node if init else None, construct="lineno init")
+    # nobody else writes the counter
+    for f in prog.package_funcs():
+        if f.cls is lit_cls:
+            continue
+        for n in f.own_nodes():
+            if isinstance(n, (ast.Assign, ast.AugAssign)):
+                for t in (n.targets if isinstance(n, ast.Assign) else [n.target]):
+                    if isinstance(t, ast.Attribute) and t.attr == "lineno":
+                        ctx.violate("R6", "the line counter is written outside LineIterator", f, n)
+
+
+def check_validate_shape(ctx, rid):
+    """The shape validator compares every axis unless its expected size is None (shared by C07-R5 and C12-R1)."""
+    prog = ctx.prog
     # the validator itself: every axis is compared unless its expected size is None
     vs = prog.func("iodata.attrutils.validate_shape")
     inner = [g for g in vs.nested.values()]
@@ -273,21 +326,21 @@ def run(ctx):
                 else:
                     axis_pred = ([], [src_of(e)], es, osn, n)
     if axis_pred is None:
-        ctx.violate("R5", "validate_shape: cannot find the per-axis comparison of expected and observed shape", val, val.node, construct="axis comparison")
+        ctx.violate(rid, "validate_shape: cannot find the per-axis comparison of expected and observed shape", val, val.node, construct="axis comparison")
     else:
         skips, mism, es, osn, node = axis_pred
         ok_skip = skips in ([f"{es} is None"], [])
         ok_mism = mism and all(m in (f"{es} != {osn}", f"{osn} != {es}", f"not {es} == {osn}", f"not {osn} == {es}") for m in mism)
         if ok_skip and ok_mism and skips:
-            ctx.ok("R5", f"validate_shape compares every axis; the only wildcard is `{es} is None`", f"{val.module.relpath}:{node.lineno}")
+            ctx.ok(rid, f"validate_shape compares every axis; the only wildcard is `{es} is None`", f"{val.module.relpath}:{node.lineno}")
         elif not ok_skip:
-            ctx.violate("R5", f"validate_shape skips an axis when `{skips}`: only `{es} is None` is a wildcard (an expected size of 0 must still be compared)", val, node, construct=f"axis wildcard {skips}")
+            ctx.violate(rid, f"validate_shape skips an axis when `{skips}`: only `{es} is None` is a wildcard (an expected size of 0 must still be compared)", val, node, construct=f"axis wildcard {skips}")
         else:
-            ctx.violate("R5", f"validate_shape axis comparison is `{mism}` with wildcard `{skips}`; expected `{es} != {osn}` unless `{es} is None`", val, node, construct=f"axis comparison {mism}")
+            ctx.violate(rid, f"validate_shape axis comparison is `{mism}` with wildcard `{skips}`; expected `{es} != {osn}` unless `{es} is None`", val, node, construct=f"axis comparison {mism}")
     if ndim_checked:
-        ctx.ok("R5", "validate_shape compares the number of dimensions", val.where)
+        ctx.ok(rid, "validate_shape compares the number of dimensions", val.where)
     else:
-        ctx.violate("R5", "validate_shape does not compare the number of dimensions", val, val.node, construct="ndim comparison")
+        ctx.violate(rid, "validate_shape does not compare the number of dimensions", val, val.node, construct="ndim comparison")
     rs = [n for n in val.own_nodes() if isinstance(n, ast.Raise)]
     if not rs or not all(raises_class(r) in ("TypeError", "ValueError") for r in rs):
-        ctx.violate("R5", "validate_shape does not raise TypeError on a mismatch", val, val.node, construct="validator raise")
+        ctx.violate(rid, "validate_shape does not raise TypeError on a mismatch", val, val.node, construct="validator raise")
